@@ -67,3 +67,26 @@ RECIPES["C19"] = {
          "unwind": "VP_N + 3", "timeout": 600, "fp_removal": True},
     ],
 }
+
+CONFIG = ["repo:src/config.c", "env/config_env.c"] + CORE
+
+RECIPES["C16"] = {
+    "units": ["src/config.c"],
+    "jobs": [
+        {"name": "typed", "src": ["C16_typed.c"] + CONFIG,
+         "splits": {"all": [{"T_BOOLEAN": None}, {"T_INTEGER": None}, {"T_INTERVAL_ANY": None}, {"T_VOLUME_ANY": None}]},
+         "defs": {"quick": {"VP_L": 5}, "thorough": {"VP_L": 8}},
+         "unwind": 22, "timeout": 600},
+        # value semantics on grammar templates: symbolic digits and unit letters.  The
+        # (digits per number, components) pairs are what the SAT back end (cadical) decides
+        # inside the budget: symbolic-by-constant multiplications make (2,2) and beyond time out.
+        {"name": "typedval", "src": ["C16_typed.c"] + CONFIG,
+         "splits": {"quick": [{"T_INTERVAL_TMPL": None, "VP_ND": 1, "VP_NCOMP": 3}, {"T_INTERVAL_TMPL": None, "VP_ND": 3, "VP_NCOMP": 1},
+                              {"T_VOLUME_TMPL": None, "VP_ND": 1, "VP_NCOMP": 3}, {"T_VOLUME_TMPL": None, "VP_ND": 3, "VP_NCOMP": 1},
+                              {"T_INTERVAL_COLON": None, "VP_ND": 2}],
+                    "thorough": [{"T_INTERVAL_TMPL": None, "VP_ND": 1, "VP_NCOMP": 3}, {"T_INTERVAL_TMPL": None, "VP_ND": 3, "VP_NCOMP": 1},
+                              {"T_VOLUME_TMPL": None, "VP_ND": 1, "VP_NCOMP": 3}, {"T_VOLUME_TMPL": None, "VP_ND": 3, "VP_NCOMP": 3},
+                              {"T_INTERVAL_COLON": None, "VP_ND": 3}]},
+         "unwind": 22, "timeout": 900, "flags": ["--sat-solver", "cadical"]},
+    ],
+}
